@@ -372,7 +372,7 @@ Proof.
         - destruct (sn_count s =? 0) eqn:Ec; [apply N.eqb_eq in Ec; congruence|].
           rewrite N.div_mul by exact Hzero. unfold u8. rewrite N.mod_small by (destruct H816 as [-> | ->]; lia). reflexivity.
         - cbn [andb] in Hp. rewrite orb_false_r in Hp. apply N.eqb_eq in Hp. subst p. reflexivity. }
-      rewrite Hp'. cbn [rbind]. rewrite N.ltb_irrefl.
+      rewrite Hp'. cbn [rbind]. rewrite N.eqb_refl. cbn [negb].
       assert (Ez : sn_ivsize s =? 0 = false) by (apply N.eqb_neq; exact Etriv). rewrite Ez.
       assert (E816 : (sn_ivsize s =? 8) || (sn_ivsize s =? 16) = true).
       { destruct H816 as [-> | ->]; reflexivity. }
